@@ -1291,6 +1291,8 @@ def error_token_inputs(rng, files, quick):
             # every template with every (width, shift) at 2 sizes; the full product in thorough
             if quick and (i + j) % 7 not in ((0,) if i < len(MB_TEMPLATES) else (0, 3)):
                 continue
+            if not quick and (i + j) % 3 != 0:
+                continue
             implonly.append(("errtoken:%s" % tpl[:12].strip(), tpl.replace("%s", t)))
     for _ in range(300 if quick else 3000):
         src = rng.choice(files)[1]
@@ -1315,7 +1317,12 @@ def error_token_family(ctx, st, files, quick):
     st["implonly_key"] = "errtoken_implonly"
     st.setdefault("errtoken_implonly", 0)
     try:
-        check_texts(ctx, implonly, st, "errtoken", debug_subset=list(range(len(implonly))), model_applies=False, batch=100)
+        # check_texts runs a list that contains one text > 20 kB text by text: the few huge ones go separately
+        small = [c for c in implonly if len(c[1]) <= 20000]
+        huge = [c for c in implonly if len(c[1]) > 20000]
+        check_texts(ctx, small, st, "errtoken", debug_subset=list(range(len(small))), model_applies=False, batch=100)
+        if huge and len(st["viol"]) < 5:
+            check_texts(ctx, huge, st, "errtokenbig", debug_subset=list(range(len(huge))), model_applies=False)
     finally:
         st.pop("implonly_key", None)
     if len(st["viol"]) < 5:
@@ -1381,6 +1388,11 @@ def build_cases(ctx):
     return files, cases, dist
 
 
+def enough(st):
+    """the directed families found what a seeded tree needs: the random families are skipped (fail fast)"""
+    return len(st["viol"]) >= 5 or any(v.get("cls") == "scalecrash" and not v.get("not_confirmed_on_cli_stack") for v in st["viol"])
+
+
 def run(ctx):
     if ctx.replay_only:
         src = ctx.replay_only.get("input", "")
@@ -1416,21 +1428,21 @@ def run(ctx):
     t0 = time.time()
     scanner_family(ctx, st, quick)
     log("[C03] scanner-position family judged in %.0fs (%d violations)" % (time.time() - t0, len(st["viol"])))
-    if len(st["viol"]) < 5:
+    if not enough(st):
         error_token_family(ctx, st, files, quick)
         log("[C03] error-token family (%d texts) judged at %.0fs (%d violations)" % (st.get("errtoken", 0), time.time() - t0, len(st["viol"])))
-    if len(st["viol"]) < 5:
+    if not enough(st):
         scale_family(ctx, st, quick)
         log("[C03] length-scale family (%d texts) judged at %.0fs (%d violations)" % (st.get("scale_cases", 0), time.time() - t0, len(st["viol"])))
     SL = 2500
     dbgset = set(dbg)
     for a in range(0, len(uniq), SL):
-        if len(st["viol"]) >= 5:
+        if enough(st):
             ctx.notes.append("the %d random / corpus texts were not judged: %d violations found by the directed families" % (len(uniq), len(st["viol"])))
             break
         part = uniq[a:a + SL]
         check_texts(ctx, part, st, "main%d" % (a // SL), debug_subset=[i - a for i in range(a, a + len(part)) if i in dbgset])
-        if len(st["viol"]) >= 5:
+        if enough(st):
             ctx.notes.append("stopped after %d of %d texts: %d violations found" % (a + len(part), len(uniq), len(st["viol"])))
             break
     log("[C03] main texts judged in %.0fs" % (time.time() - t0))
@@ -1438,29 +1450,29 @@ def run(ctx):
     lad = ladders(rng, quick)
     lim = limits(rng)
     cs = code_size_inputs()
-    if len(st["viol"]) < 5:
+    if not enough(st):
         check_texts(ctx, lad, st, "ladders", debug_subset=list(range(len(lad))))
-    if len(st["viol"]) < 5:
+    if not enough(st):
         check_texts(ctx, lim, st, "limits", debug_subset=list(range(len(lim))))
-    if len(st["viol"]) < 5:
+    if not enough(st):
         check_texts(ctx, cs, st, "codesize", model_applies=False)
     try:
         bmod, bimpl = boundary_inputs(quick)
     except Exception as e:      # C04's builders are reused; without them the family is skipped, loudly
         bmod, bimpl = [], []
         ctx.broken.append("boundary family not built (tools/props/C04.py builders): %s" % e)
-    if len(st["viol"]) < 5:
+    if not enough(st):
         check_texts(ctx, bmod, st, "boundary", debug_subset=list(range(len(bmod))))
-    if len(st["viol"]) < 5:
+    if not enough(st):
         check_texts(ctx, bimpl, st, "boundaryimpl", debug_subset=list(range(0, len(bimpl), 4)), model_applies=False)
     st["boundary_inputs"] = len(bmod) + len(bimpl)
     log("[C03] boundary family (%d modelled, %d compiler-only) judged at %.0fs" % (len(bmod), len(bimpl), time.time() - t0))
     att = attribute_inputs(rng)
-    if len(st["viol"]) < 5:
+    if not enough(st):
         check_texts(ctx, att, st, "attrs", debug_subset=list(range(0, len(att), 3)))
     st["attr_inputs"] = len(att)
     st["dup_attr_agreements"] = sum(1 for m, _ in st["errclasses"] if m.startswith("Duplicate attribute"))
-    st["kw"] = keyword_probes(ctx, st) if len(st["viol"]) < 5 else 0
+    st["kw"] = keyword_probes(ctx, st) if not enough(st) else 0
     log("[C03] ladders, limits, code-size inputs judged at %.0fs" % (time.time() - t0))
     # accepted texts must be runnable: no panic of the interpreter (a run that does not finish in time is not judged)
     acc = sorted(s for s in st["accepted"] if s not in corpus_texts and len(s) < 5000)
